@@ -11,8 +11,8 @@
 (*   x     device X: a TLC-generated exact case replayed on the generic point code over the toy field C;            *)
 (*         re-decided here from the definitions of ElemCodec (curve equation, roots, multiples of G)                *)
 (* The u-only Montgomery form cannot tell P from -P.  So that this one deviation is reported once per decoder and   *)
-(* not once per element, the sign is demanded on the identity, the special points and |k| <= 2 and the rest of the  *)
-(* window is held to "up to sign" (StrictSign).                                                                    *)
+(* not once per element, the sign is demanded on the identity, the point of order two and |k| <= 2; the rest of the *)
+(* window and the other special points are held to "up to sign" (StrictSign).                                      *)
 EXTENDS ElemCodecMC
 
 Trace == ndJsonDeserialize("trace.ndjson")
@@ -23,7 +23,7 @@ Has(e, f) == f \in DOMAIN e
 SetOf(q) == {q[i] : i \in 1..Len(q)}
 Abs(v) == IF v < 0 THEN -v ELSE v
 
-StrictSign(e) == e.fmt # "montc" \/ e.label # "window" \/ Abs(e.k) <= 2
+StrictSign(e) == e.fmt # "montc" \/ e.label \in {"identity", "T2"} \/ (e.label = "window" /\ Abs(e.k) <= 2)
 RtOK(e) == /\ ~e.panic /\ e.acc
            /\ Has(e, "dec") /\ e.decOnc
            /\ IF StrictSign(e) THEN e.dec = e.elem ELSE e.dec \in {e.elem, e.elemNeg}
@@ -66,6 +66,9 @@ Check(e) ==
 
 TInit == l = 1 /\ ph = "trace" /\ el = 0 /\ s = <<>> /\ mut = NoMut /\ out = {} /\ re = {}
 TNext == l <= Len(Trace) /\ l' = l + 1 /\ UNCHANGED vars
+\* the same check with every line an initial state (TLC -continue then reports every rejected line in one run)
+TInitAll == l \in 1..Len(Trace) /\ ph = "trace" /\ el = 0 /\ s = <<>> /\ mut = NoMut /\ out = {} /\ re = {}
+TStay == UNCHANGED <<l, ph, el, s, mut, out, re>>
 
 CaseOK == l <= Len(Trace) => Check(Trace[l])
 =============================================================================
